@@ -403,9 +403,15 @@ pub fn cse_classify_by_conditions(
             // cse detection.
             //
             // now find conditions that are downstream of the cse root.
+            // A condition above any one of the instances guards that instance,
+            // not only the conditions above the first.
             let applicable_conditions: Vec<CSECondition> = conditions
                 .iter()
-                .filter(|c| path_overlap_one_way(&c.path, &possible_root))
+                .filter(|c| {
+                    d.instances
+                        .iter()
+                        .any(|i| path_overlap_one_way(&c.path, &i.path))
+                })
                 .cloned()
                 .collect();
 
